@@ -28,7 +28,7 @@ func rPostOrder(r *rNode, out []*rNode) []*rNode {
 // earlier version, ...) plain or compressed; the stream is the reference post-order; importing
 // it into an empty store gives the same hash, contents and proofs, and identical later commits.
 func C10_RoundTrip() {
-	cfg := &vHistCfg{name: "C10_RoundTrip", lenVars: 1, valVars: 1, caches: []int{0}, fast: []bool{false, true}, thresh: []int{0}, refHash: true}
+	cfg := &vHistCfg{name: "C10_RoundTrip", lenVars: 1, lenSet: []int{0, 5}, valVars: 1, caches: []int{0}, fast: []bool{false, true}, thresh: []int{0}, refHash: true}
 	maxH := 2
 	if vTier() == "thorough" {
 		maxH = 3
@@ -106,10 +106,18 @@ func C10_RoundTrip() {
 		i := vChoice("proofkey", h.p.n)
 		p, err := t2.GetProof(h.p.keys[i])
 		vAssert(err == nil, "c10:proof-err")
+		// the same proof as the original version gives (whether proofs verify at all is C03: a proof that
+		// involves the empty key does not, finding F22)
+		po, err := it.GetProof(h.p.keys[i])
+		vAssert(err == nil, "c10:original-proof-err")
 		if h.vers[v].present[i] {
-			vAssert(ics23.VerifyMembership(ics23.IavlSpec, h.refHash[v], p, h.p.keys[i], h.vers[v].vals[i]), "c10:imported-membership-proof")
+			want := ics23.VerifyMembership(ics23.IavlSpec, h.refHash[v], po, h.p.keys[i], h.vers[v].vals[i])
+			vAssert(ics23.VerifyMembership(ics23.IavlSpec, h.refHash[v], p, h.p.keys[i], h.vers[v].vals[i]) == want, "c10:imported-membership-proof")
+			vAssert(want || len(h.p.keys[i]) == 0, "c10:original-membership-proof")
 		} else {
-			vAssert(ics23.VerifyNonMembership(ics23.IavlSpec, h.refHash[v], p, h.p.keys[i]), "c10:imported-nonmembership-proof")
+			want := ics23.VerifyNonMembership(ics23.IavlSpec, h.refHash[v], po, h.p.keys[i])
+			vAssert(ics23.VerifyNonMembership(ics23.IavlSpec, h.refHash[v], p, h.p.keys[i]) == want, "c10:imported-nonmembership-proof")
+			vAssert(want || len(h.p.keys[0]) == 0, "c10:original-nonmembership-proof")
 		}
 	}
 	// identical later commits: apply the same write to the original (loaded at v) and the import
